@@ -252,10 +252,20 @@ func renderLogicWorld(w logicWorld, kinds []int) string {
 	for _, name := range names {
 		n := w.Nodes[name]
 		node := map[string]any{"@id": nodeNS + name}
-		if target[name] {
+		// a target is an instance of T, alone or among other classes; a decoy is not, whatever its class names look like
+		switch k := len(graph) % 3; {
+		case target[name] && k == 0:
 			node["@type"] = []any{exNS + "T"}
-		} else {
+		case target[name] && k == 1:
+			node["@type"] = []any{exNS + "Other", exNS + "T", exNS + "Third"}
+		case target[name]:
+			node["@type"] = []any{exNS + "T", "http://example.org/other#T"}
+		case k == 0:
 			node["@type"] = []any{exNS + "C"}
+		case k == 1:
+			node["@type"] = []any{exNS + "Tx", exNS + "xT", "http://example.org/other#T"}
+		default:
+			node["@type"] = []any{exNS + "t", "http://example.org/ns/T"}
 		}
 		for i, tv := range n.Val {
 			if i >= len(kinds) {
